@@ -78,7 +78,7 @@ PROPS = {
                        "(run_concat), Base16 accepts exactly even-length hex text. The encoders use slice::chunks and fmt::Write "
                        "(outside Verus): Kani proves display* == the same RFC arithmetic per chunk length over all octet values.",
         "not_covered": "Multi-chunk encoder output beyond the bounded harnesses rests on slice::chunks composing per chunk (assumed). "
-                       "SymbolConverter::{process_char, process_tail} of base64 and base32 are under contract (same state machines); the process_symbol wrappers (trait-generic symbol to char conversion) and the base16 SymbolConverter are not. Standard-alphabet Base32 is not implemented by the "
+                       "SymbolConverter::{process_char, process_tail} of base64 and base32 are under contract (same state machines); the process_symbol wrappers (trait-generic symbol to char conversion) and the base16 SymbolConverter are not. How the text reaches a converter is under contract for IterScanner (unit iterscan: convert_token / convert_entry feed the symbols in order and call process_tail once, last) and not for the zone-file EntryScanner (its convert_entry rewrites the buffer in place: C07). Standard-alphabet Base32 is not implemented by the "
                        "library. Fixed-capacity targets that refuse to grow (ShortBuf) are outside the contracts (D13). "
                        "Non-canonical trailing bits are accepted by the decoders (RFC 4648 section 3.5 permits either).",
         "assumptions": [
@@ -133,7 +133,7 @@ PROPS = {
                        "Txt::check_slice accepts exactly the non-empty sequences of character strings, Txt::parse yields character "
                        "strings (possibly none), CharStr::skip, and as_flat_slice is total on all of them. Kani covers the unsafe header casts.",
         "not_covered": "RecordIter/AnyRecordIter and into_record (typed RDATA parsers for all types), the individual OPT option "
-                       "parsers (parse_option of each option type is a trait contract here), OptRecord/OptHeader accessors, MessageIter, "
+                       "parsers (parse_option of each option type is a trait contract here), OptRecord accessors (those of Header, HeaderCounts, OptHeader and OptRcode are under contract in unit wirehdr), MessageIter, "
                        "Message::canonical_name/is_answer (CBMC does not terminate on them: not under contract), dig-style and "
                        "zone-style Display (core::fmt), ParsedName::split_first (Octets::range), 'traversed twice yields the same "
                        "result' (follows from purity over an immutable slice; not stated as an obligation).",
@@ -190,7 +190,7 @@ PROPS = {
                        "UncertainName::is_slice_absolute (the check behind UncertainName::from_octets) accepts exactly the valid absolute names "
                        "of at most 255 octets and the valid non-empty relative names of at most 254 (this contract exposed D50).",
         "not_covered": "Presentation-text round trip (Display/FromStr: core::fmt and char iterators), append_name/append_origin/"
-                       "append_symbols (label iterators), Chain beyond its length check, UncertainName, slice/range with general RangeBounds and Name::{truncate, strip_suffix} (searched natively only), "
+                       "append_symbols (label iterators), Chain beyond its length check, UncertainName beyond is_slice_absolute, slice/range with general RangeBounds (searched natively only; split, truncate and strip_suffix of Name / RelativeName are under contract), "
                        "the text parsers of Name / RelativeName (FromStr, from_chars). The zone-file reader's name conversion is under contract in unit zfsource (C07: scan_name hands out valid names only). Builders that refuse to grow (ShortBuf) are outside the contracts (D13).",
         "assumptions": [
             "OctetsBuilder + AsRef<[u8]> + AsMut<[u8]> are modelled by one prelude trait (append_slice appends or fails unchanged; as_mut keeps the length)",
